@@ -276,3 +276,50 @@ Example C10_example_former_panics :
   decompress [ENode None None 0 1] = IErr /\
   decompress [ENode (Some [5%N; 97%N]) (Some [1%N]) 1 0] = IErr.
 Proof. vm_compute. intuition reflexivity. Qed.
+
+(** *** The database an import writes, end to end (ImportPhysFacts): exporting a retained version
+    of any reachable state and feeding the stream to the importer yields the tree [imported H t]
+    with the node keys the importer assigns (per-version nonce counters, root nonce 1); the store
+    holding it - [Store.expected_store [(V, Some t')]], whose digest the correspondence check
+    compares with the store the REAL importer wrote - loads version V back node for node, with the
+    shape, contents and root hash of the exported tree; when the root was written in version V
+    itself the imported database discovers exactly version V.  When the root is inherited from an
+    earlier version the database ALSO reports that version and the ones in between (refutation
+    below; observed on the real library, outside the properties' quantifiers). *)
+From IAVL Require Import MTree VersionFacts Store StoreFacts PruneAlgo Discover DbImage DbImageFacts ImportPhysFacts.
+Local Open Scope Z_scope.
+
+Theorem C10_import_of_an_exported_version_reopens :
+  forall (H : bytes -> bytes) iv0 b ops V t iv fi l,
+    init_ok iv0 b -> run_ok H (init_state iv0 b) ops ->
+    let s := fst (run H (init_state iv0 b) ops) in
+    In (V, Some t) (forest s) -> V < max_nonces_len -> ncount t + 1 < 2 ^ 32 ->
+    let t' := imported H t in
+    let st := expected_store [(V, Some t')] in
+    image_ok st fi l = true ->
+    imp_run H V (map Some (export (Some t))) = IOk (Some t') /\
+    shape_eq t' t /\ elems t' = elems t /\
+    (forall wv, root_hash H wv (Some t') = pure_hash H wv t) /\
+    load_version H (S (length st)) st V = POk (Some t') /\
+    (exists m lst,
+       0 <= m <= V /\
+       open_image H iv (encode_image st fi l) =
+         (if (0 <? m) && (m <? iv) then DbInitial m else DbOk lst) /\
+       filter (fun p => V <=? fst p) lst = [(V, POk (Some t'))]) /\
+    (ver (nmeta t) = V -> iv <= V ->
+       open_forest H iv (encode_image st fi l) = DbOk [(V, Some t')] /\
+       discovered_available st = Some [V]).
+Proof. exact import_reopens_reachable. Qed.
+Print Assumptions C10_import_of_an_exported_version_reopens.
+
+Theorem C10_both_codecs_build_the_same_tree : ltac:(let t := type of cimp_run_export in exact t).
+Proof. exact cimp_run_export. Qed.
+Print Assumptions C10_both_codecs_build_the_same_tree.
+
+Theorem C10_import_inherited_root_discovers_more_refuted :
+  ltac:(let t := type of import_inherited_root_discovers_more_refuted in exact t).
+Proof. exact import_inherited_root_discovers_more_refuted. Qed.
+Print Assumptions C10_import_inherited_root_discovers_more_refuted.
+
+Example C10_import_physical_example : ltac:(let t := type of ip_exact in exact t).
+Proof. exact ip_exact. Qed.
